@@ -10,6 +10,7 @@ import Larking.Model.Negotiate
 import Larking.Model.Trie
 import Larking.Model.Streams
 import Larking.Model.Param
+import Larking.Model.Registry
 import Larking.Gen.Params
 import Larking.Gen.Lexer
 namespace Larking.Driver
@@ -319,8 +320,81 @@ def handleParams : List String → Option String
       pure (showMsg (Param.decodeRequest Gen.pathParamsLast (Param.setAll [] b) q p))
   | _ => none
 
+/-! ### C11 / C12: the registry state machine -/
+
+def parseNatList (sep : String) (s : String) : Option (List Nat) :=
+  if s == "" then some [] else (s.splitOn sep).mapM (·.toNat?)
+
+def parseMSpecs (s : String) : Option (List Registry.MSpec) :=
+  if s == "" || s == "-" then some [] else
+  (s.splitOn ",").mapM fun item =>
+    match item.splitOn ":" with
+    | [m, ks] => do
+        let m ← m.toNat?
+        let ks ← parseNatList "." ks
+        pure ⟨m, ks⟩
+    | _ => none
+
+def parseRegOp (s : String) : Option Registry.Op :=
+  match s.splitOn " " with
+  | ["S", mss] => (parseMSpecs mss).map .regService
+  | ["C", c, hash, mss] => do
+      let c ← c.toNat?
+      let h ← hash.toNat?
+      let mss ← parseMSpecs mss
+      pure (.regConn c h mss)
+  | ["D", c] => c.toNat?.map .dropConn
+  | _ => none
+
+def regUniverse (ops : List Registry.Op) : List Nat × List Nat :=
+  let ms := ops.flatMap fun
+    | .regService mss => mss.map (·.method)
+    | .regConn _ _ mss => mss.map (·.method)
+    | .dropConn _ => []
+  let cs := ops.flatMap fun
+    | .regConn c _ _ => [c]
+    | .dropConn c => [c]
+    | _ => []
+  ((ms.eraseDups.toArray.qsort (· < ·)).toList, (cs.eraseDups.toArray.qsort (· < ·)).toList)
+
+def showOwner : Option Nat → String
+  | none => "L"
+  | some c => toString c
+
+def showRegState (ms cs : List Nat) (s : Registry.St) : String :=
+  let hs := ms.filterMap fun m =>
+    let l := s.handlers m
+    if l.isEmpty then none else some (toString m ++ "=" ++ ".".intercalate (l.map fun h => showOwner h.owner))
+  let cn := cs.filterMap fun c =>
+    match s.conns c with
+    | none => none
+    | some cl => some (toString c ++ "=" ++ toString cl.hash ++ ":" ++ ".".intercalate (cl.handlers.map fun h => toString h.method))
+  let live := ms.filterMap fun m =>
+    let l := s.handlers m
+    if l.isEmpty then none else
+      let ks := (l.flatMap (·.keys)).eraseDups
+      some (toString m ++ "=" ++ ".".intercalate (ks.map fun k =>
+        match Registry.routeOf s.routes k with | some m' => toString k ++ ">" ++ toString m' | none => toString k ++ ">-"))
+  ";".intercalate hs ++ "#" ++ ";".intercalate cn ++ "#" ++ ";".intercalate live
+
+def showRes : Registry.Res → String
+  | .ok => "ok" | .err => "err" | .dropped b => if b then "true" else "false"
+
+def runRegistry (ops : List Registry.Op) : String :=
+  let (ms, cs) := regUniverse ops
+  let (_, outs) := ops.foldl (fun (acc : Registry.St × List String) op =>
+    let r := Registry.step Registry.firstOf acc.1 op
+    (r.1, acc.2 ++ [showRes r.2 ++ "#" ++ showRegState ms cs r.1])) (Registry.St.init, [])
+  "|".intercalate outs
+
+def handleRegistry : List String → Option String
+  | ["registry", ops] => do
+      let ops ← (ops.splitOn "|").mapM parseRegOp
+      pure (runRegistry ops)
+  | _ => none
+
 def handlers : List (List String → Option String) :=
-  [handleC05, handleC14C15, handleC17, handleC19, handleC04, handleRouting, handleStreams, handleParams]
+  [handleC05, handleC14C15, handleC17, handleC19, handleC04, handleRouting, handleStreams, handleParams, handleRegistry]
 
 def handle (args : List String) : String :=
   match handlers.findSome? (fun h => h args) with
